@@ -8,8 +8,9 @@
     * `wf`        the image of the parser on which the round trip holds (decidable): precedence-respecting
                   trees (`lvlE`), non-negative integer constants, decimal constants that survive "%.16g",
                   NUL-free string constants, upper-case non-reserved names, built-ins with an accepted arity.
-    * regions     where it does NOT hold on the pinned tree (known findings): `hasNegInt`, `hasNum17`,
-                  `printAdj`, `doHead`.
+    * regions     where it does NOT hold (known findings): `hasNegInt`, `hasNum17`, `printAdj`.
+                  `doHead` is the region of a REPAIRED finding (C12.do_without_keyword, fix 1a89173): it
+                  excludes nothing any more; the DO theorems of Proofs/C12.lean hold inside it as well.
     * `toExpr` / `toStmts`   the translation into the interpreter's AST (Model/Interp.lean), forgetting `enc`:
                   two trees with the same translation have the same behaviour by construction.
 -/
@@ -163,8 +164,12 @@ def printAdj : List PExpr → Bool
   | a :: b :: rest => (endsVar a && startsParen b) || printAdj (b :: rest)
   | _ => false
 
-/-- a DO statement whose expression does not start with a word: its text `(…);`, `1;`, `-x;`, `"s";` is
-not a statement (DOStatement::unparse does not write the keyword `do`) -/
+/-- Region of the REPAIRED finding C12.do_without_keyword (fix 1a89173), kept as the name of where the
+defect was: a DO statement whose expression does not start with a word. Its expression text alone —
+`(…);`, `1;`, `-x;`, `"s";` — is not a statement, and DOStatement::unparse used to write only that. It
+now writes `do ` first for every DO statement, so the saved text loads again inside this region as well
+(`C12.stmt_do_roundtrip` has no hypothesis about it; its example lies inside). Not a known-finding region
+any more: the driver does not report it, the check suppresses nothing for it. -/
 def doHead (e : PExpr) : Bool := !startsWord e
 
 /-! ## Translation into the interpreter's AST -/
